@@ -238,6 +238,42 @@ func init() {
 			return i.mkSym(i.ex.Ctx.App("uf_"+sanitize(argString(a[0])), smt.FP64, i.term(a[1])), types.Float64)
 		},
 		"verif_thorough": func(fr *frame, a []value) value { return fr.i.ex.Tier == "thorough" },
+		// verif_fill(p, seed): p points to a value whose every field (found
+		// through go/types) is set to a non-zero value that differs per field
+		// and per seed; fields of types the helper cannot build stay zero.
+		"verif_fill": func(fr *frame, a []value) value {
+			it, ok := a[0].(iface)
+			pt, okp := it.t.(*types.Pointer)
+			cell, okc := it.v.(*value)
+			if !ok || !okp || !okc || cell == nil {
+				unsupported("verif_fill: not a pointer to a variable")
+			}
+			idx := 0
+			if v, ok := fillValue(fr.i, pt.Elem(), int(asInt64(a[1])), "", &idx); ok {
+				store(pt.Elem(), cell, v)
+			}
+			return nil
+		},
+		// verif_deep_equal(a, b): structural equality of two values of the same
+		// dynamic type (nil and empty slices/maps alike, times by instant).
+		"verif_deep_equal": func(fr *frame, a []value) value {
+			x, y := a[0].(iface), a[1].(iface)
+			if x.t == nil || y.t == nil || !types.Identical(x.t, y.t) {
+				return false
+			}
+			return deepEqual(fr.i, x.t, x.v, y.v)
+		},
+		// verif_time_bound is the largest magnitude a model's free time values
+		// may take: in the concurrent engine a symbol the BMC defines as 2^14
+		// when values are narrowed to 16 bits and as 2^40 when they are not
+		// (any constant of the code under test that does not fit 16 bits turns
+		// narrowing off); 2^40 in sequential harnesses.
+		"verif_time_bound": func(fr *frame, a []value) value {
+			if fr.i.tree == nil {
+				return int64(1) << 40
+			}
+			return fr.i.mkSym(fr.i.ex.Ctx.Var("verif_timebound", smt.BV(64)), types.Int64)
+		},
 		"verif_param": func(fr *frame, a []value) value {
 			v, ok := fr.i.ex.Params[argString(a[0])]
 			if !ok {
